@@ -20,8 +20,12 @@ use crate::common::*;
 use minidump::*;
 use minidump_common::format as md;
 use minidump_common::format::MINIDUMP_STREAM_TYPE as ST;
-use minidump_processor::ProcessState;
-use minidump_unwind::{CallStackInfo, CallingConvention, FunctionArg, FunctionArgs};
+use super::process::pipeline_gen as pg;
+use breakpad_symbols::{FileError, FileKind, SymbolError, SymbolFile};
+use minidump_processor::{ProcessState, ProcessorOptions};
+use minidump_unwind::{
+    CallStackInfo, CallingConvention, FunctionArg, FunctionArgs, LocateSymbolsResult, SymbolSupplier, Symbolizer,
+};
 use std::collections::{HashMap, HashSet};
 use std::time::{Duration, SystemTime, UNIX_EPOCH};
 use Sx::{A, L};
@@ -158,10 +162,89 @@ fn vendor_of(ty: u32) -> &'static str {
     }
 }
 
+thread_local! {
+    static RT: tokio::runtime::Runtime =
+        tokio::runtime::Builder::new_current_thread().enable_all().build().expect("tokio runtime");
+}
+
+/// symbol files of a generated (dump, symbols) pair; modules without one get a generated file
+struct PipeSupplier {
+    syms: HashMap<String, Vec<u8>>,
+    fallback: (u64, String, String, u32),
+}
+
+#[async_trait::async_trait]
+impl SymbolSupplier for PipeSupplier {
+    async fn locate_symbols(&self, module: &(dyn minidump_common::traits::Module + Sync)) -> Result<LocateSymbolsResult, SymbolError> {
+        let name = module.code_file().to_string();
+        let bytes: Vec<u8> = match self.syms.get(&name) {
+            Some(b) => b.clone(),
+            None => {
+                let (seed, cpu, os, feat) = &self.fallback;
+                let mut rng = Rng::new(seed ^ fnv64(name.as_bytes()));
+                pg::gen_symbols(&mut rng, cpu, os, &name, module.base_address(), module.size().min(u32::MAX as u64) as u32, *feat)
+            }
+        };
+        SymbolFile::from_bytes(&bytes).map(|symbols| LocateSymbolsResult { symbols, extra_debug_info: None })
+    }
+    async fn locate_file(&self, _module: &(dyn minidump_common::traits::Module + Sync), _file_kind: FileKind) -> Result<std::path::PathBuf, FileError> {
+        Err(FileError::NotFound)
+    }
+}
+
+fn options_of(opt: u64) -> ProcessorOptions<'static> {
+    match opt {
+        0 => ProcessorOptions::stable_basic(),
+        1 => ProcessorOptions::stable_all(),
+        _ => ProcessorOptions::unstable_all(),
+    }
+}
+
+/// `text pipe n<seed> <cpu> <os> n<feat> n<opt>`: engine `process`'s generator of (dump, symbol files)
+/// pairs — all CPUs and OSes, FUNC / line / INLINE / STACK records, misc info, extra streams —
+/// through `process_minidump_with_options`
+fn build_pipe(items: &[Sx]) -> Option<ProcessState> {
+    if items.len() != 6 {
+        return None;
+    }
+    let (seed, cpu, os, feat, opt) = (items[1].nat()?, items[2].atom()?, items[3].atom()?, items[4].nat()? as u32, items[5].nat()?);
+    if !pg::CPUS.contains(&cpu) || !pg::OSES.contains(&os) {
+        return None;
+    }
+    let b = pg::build(seed, cpu, os, feat)?;
+    let dump = Minidump::read(b.dump).ok()?;
+    let provider = Symbolizer::new(PipeSupplier { syms: b.syms, fallback: (seed, cpu.to_string(), os.to_string(), feat) });
+    RT.with(|rt| rt.block_on(minidump_processor::process_minidump_with_options(&dump, &provider, options_of(opt))).ok())
+}
+
+fn repo() -> std::path::PathBuf {
+    std::path::PathBuf::from(std::env::var("VERIF_REPO").unwrap_or_else(|_| "/repo".into()))
+}
+
+const TESTDATA: [&str; 5] = ["test.dmp", "linux-mini.dmp", "simple-crashpad.dmp", "pipeline-inlines-macos-segv.dmp", "full-dump.dmp"];
+
+/// `text file s<name> n<opt>`: a dump of the repository's testdata with the repository's symbol files
+fn build_file(items: &[Sx]) -> Option<ProcessState> {
+    if items.len() != 3 {
+        return None;
+    }
+    let name = items[1].string()?;
+    if !TESTDATA.contains(&name.as_str()) {
+        return None;
+    }
+    let dump = Minidump::read_path(repo().join("testdata").join(&name)).ok()?;
+    let provider = Symbolizer::new(minidump_unwind::simple_symbol_supplier(vec![repo().join("testdata").join("symbols")]));
+    RT.with(|rt| rt.block_on(minidump_processor::process_minidump_with_options(&dump, &provider, options_of(items[2].nat()?))).ok())
+}
+
 fn build_case(case: &str) -> Option<ProcessState> {
     let rest = case.strip_prefix("text ")?;
     let items = json::strip_shape(json::sx_parse(rest)?);
-    if json::is_proc_case(&items) {
+    if matches!(items.first(), Some(A(a)) if a == "pipe") {
+        catch(|| build_pipe(&items)).ok()?
+    } else if matches!(items.first(), Some(A(a)) if a == "file") {
+        catch(|| build_file(&items)).ok()?
+    } else if json::is_proc_case(&items) {
         catch(|| json::build_proc(&items)).ok()?
     } else if json::is_procx_case(&items) {
         catch(|| json::build_procx(&items)).ok()?
@@ -934,6 +1017,27 @@ impl Engine for Text {
                 Err(e) => eprintln!("generator panic (procx): {e}"),
             }
         }
+        for name in TESTDATA {
+            for opt in [0u64, 2] {
+                emit(format!("text file {} n{opt}", json::sx_line(&[json::s(name)])));
+            }
+        }
+        for _ in 0..(if tier == Tier::Quick { 500 } else { 5000 }) {
+            let cpu = *rng.pick(pg::CPUS);
+            let os = *rng.pick(pg::OSES);
+            // mostly symbolised stacks; every other sub-generator switched on at random
+            let mut feat = (rng.next() as u32) & pg::F_ALL & !pg::F_SYM_CORRUPT;
+            if rng.chance(3, 4) {
+                feat |= pg::F_STACKS | pg::F_MODULES | pg::F_SYM_FUNC | pg::F_EXCEPTION | pg::F_EXC_CONTEXT;
+            }
+            if rng.chance(1, 2) {
+                feat |= pg::F_SYM_CFI | pg::F_MISC;
+            }
+            if rng.chance(1, 8) {
+                feat |= pg::F_SYM_CORRUPT;
+            }
+            emit(format!("text pipe n{} {cpu} {os} n{feat} n{}", rng.next() >> 16, rng.below(3)));
+        }
         let count = if tier == Tier::Quick { 6000 } else { 40000 };
         for i in 0..count {
             let g = json::GenOpts { hostile: i % 4 == 1, wild: i % 5 == 0, defects: i % 7 == 0 };
@@ -973,11 +1077,28 @@ impl Engine for Text {
 }
 
 impl Text {
+    /// `text pipe …`: clear feature bits one at a time
+    fn shrink_pipe(&self, case: &str, still_fails: &dyn Fn(&str) -> bool) -> String {
+        let f: Vec<&str> = case.split(' ').collect();
+        if f.len() != 7 || f[1] != "pipe" {
+            return case.to_string();
+        }
+        let Some(mut feat) = f[5].strip_prefix('n').and_then(|v| v.parse::<u32>().ok()) else {
+            return case.to_string();
+        };
+        let render = |feat: u32| format!("text pipe {} {} {} n{feat} {}", f[2], f[3], f[4], f[6]);
+        for bit in 0..25 {
+            if feat >> bit & 1 == 1 && still_fails(&render(feat & !(1 << bit))) {
+                feat &= !(1 << bit);
+            }
+        }
+        render(feat)
+    }
     fn exec_inner(&self, case: &str) -> ImplResult {
         let Some(r) = run(case) else {
             return ImplResult { out: "bad-case".into(), tags: vec!["bad-case".into()], ..Default::default() };
         };
-        let from_processor = case.starts_with("text proc");
+        let from_processor = case.starts_with("text proc") || case.starts_with("text pipe ") || case.starts_with("text file ");
         let (fails, mut tags) = oracle(&r, from_processor);
         let show = |x: &Result<Vec<u8>, String>| match x {
             Ok(b) => hex(b),
@@ -987,7 +1108,15 @@ impl Text {
         res.nontrivial = r.full.is_ok() && (r.ps.threads.iter().any(|t| !t.frames.is_empty()) || r.ps.modules.iter().next().is_some());
         tags.extend(tags_of(&r));
         if from_processor {
-            tags.push("source:process_minidump".into());
+            let kind = case.split(' ').nth(1).unwrap_or("");
+            tags.push(format!("source:process_minidump({kind})"));
+            let extra: Vec<String> = tags
+                .iter()
+                .filter(|t| t.starts_with("frame:") || t.starts_with("uptime:") || t.ends_with("-streams") || *t == "inline-frames"
+                    || *t == "dump-thread-skipped" || t.starts_with("bit-flips") || t.starts_with("modules:") || *t == "not-wf")
+                .map(|t| format!("processor-path/{t}"))
+                .collect();
+            tags.extend(extra);
         } else {
             tags.push("source:direct".into());
         }
@@ -1000,8 +1129,8 @@ impl Text {
         };
         let had_shape = matches!(items.first(), Some(A(a)) if a == "st");
         let mut items = json::strip_shape(items);
-        if json::is_proc_case(&items) {
-            return case.to_string();
+        if json::is_proc_case(&items) || matches!(items.first(), Some(A(a)) if a == "pipe" || a == "file") {
+            return self.shrink_pipe(case, still_fails);
         }
         let render = |items: &Vec<Sx>| format!("text {}{}", if had_shape { "st " } else { "" }, json::sx_line(items));
         static TOTAL: std::sync::atomic::AtomicUsize = std::sync::atomic::AtomicUsize::new(0);
